@@ -299,7 +299,57 @@ class PlanSuite(PipeSuite):
         return head + " :: " + print_prog(items)
 
 
-SUITES = {"plan": PlanSuite()}
+class ExecSuite(PipeSuite):
+    name = "exec"
+
+    def gens(self, tier, seed, sspec):
+        s = str(seed)
+        kf1 = sspec.get("kf1", False)
+        if tier == "quick":
+            g = [("random schedules (free/hold/overlap/jitter)", ["--gen", "random", "--count", "110", "--seed", s], {}),
+                 ("fault injection", ["--gen", "faults", "--count", "50", "--seed", s], {})]
+            if kf1:
+                g.append(("thread-locals inside batches", ["--gen", "kf1", "--count", "25", "--seed", s], {}))
+        elif tier == "thorough":
+            g = [("random schedules (free/hold/overlap/jitter)", ["--gen", "random", "--count", "4000", "--seed", s], {}),
+                 ("fault injection", ["--gen", "faults", "--count", "1500", "--seed", s], {})]
+            if kf1:
+                g.append(("thread-locals inside batches", ["--gen", "kf1", "--count", "500", "--seed", s], {}))
+        else:
+            g = [("search:random", ["--gen", "random", "--count", "500", "--seed", s], {}),
+                 ("search:faults", ["--gen", "faults", "--count", "200", "--seed", s], {})]
+            if kf1:
+                g.append(("search:kf1", ["--gen", "kf1", "--count", "100", "--seed", s], {}))
+        return g
+
+    def still_fails(self, case, oracle):
+        r = self.run_cases([case])
+        base = oracle.split(":")[0]
+        return any(o.split(":")[0] == base for (o, _l, _c) in r.oracle_failures)
+
+    def shrink(self, case, oracle):
+        head, _, prog = case.partition(" :: ")
+        try:
+            items = parse_prog(prog.split())
+        except Exception:       # noqa
+            return case
+        budget = 120
+        changed = True
+        while changed and budget > 0:
+            changed = False
+            for cand in _variants(items):
+                budget -= 1
+                if budget <= 0:
+                    break
+                c = head + " :: " + print_prog(cand)
+                if self.still_fails(c, oracle):
+                    items = cand
+                    changed = True
+                    break
+        return head + " :: " + print_prog(items)
+
+
+SUITES = {"plan": PlanSuite(), "exec": ExecSuite()}
 
 
 # ----------------------------------------------------------------------------------------
@@ -330,7 +380,7 @@ def match_known(known, suite, case, oracle):
         m = k.get("match", {})
         if suite not in m.get("suites", [suite]):
             continue
-        if m.get("oracles") and oracle not in m["oracles"]:
+        if m.get("oracles") and oracle not in m["oracles"] and oracle.split(":")[0] not in m["oracles"]:
             continue
         pred = PREDICATES.get(m.get("predicate", ""))
         if pred and pred(case):
